@@ -325,7 +325,8 @@ Proof.
     + destruct (Nat.eqb arg 0).
       * destruct (cache_get (r_cache (getr s r)) key); inversion H; subst; clear H; simpl;
           (eapply edge_on_frames; [|exact Inv]); keep_frames.
-      * destruct (r_cancel (getr s r)); [|discriminate].
+      * destruct (Nat.eqb arg 2); [inversion H; subst; clear H; simpl; (eapply edge_on_frames; [|exact Inv]); keep_frames|].
+        destruct (r_cancel (getr s r)); [|discriminate].
         destruct (do_fail_edge _ _ _ _ _ _ _ others H) as [N P].
         rewrite N. eapply edge_on_frames; [|exact Inv].
         intros to [g [Hin Hp]]. left. apply P. exists g. split; [|exact Hp].
